@@ -6,6 +6,7 @@ pub mod c04;
 pub mod c05;
 pub mod c06;
 pub mod c07;
+pub mod c08;
 pub mod c09;
 pub mod c10;
 pub mod c11;
@@ -28,6 +29,7 @@ pub fn run(id: &str, tier: Tier, seed: u64) -> i32 {
         "C05" => c05::run(tier, seed),
         "C06" => c06::run(tier, seed),
         "C07" => c07::run(tier, seed),
+        "C08" => c08::run(tier, seed),
         "C09" => c09::run(tier, seed),
         "C10" => c10::run(tier, seed),
         "C11" => c11::run(tier, seed),
@@ -55,6 +57,7 @@ pub fn replay(id: &str, case: &serde_json::Value) -> CaseResult {
         "C05" => c05::replay(case),
         "C06" => c06::replay(case),
         "C07" => c07::replay(case),
+        "C08" => c08::replay(case),
         "C09" => c09::replay(case),
         "C10" => c10::replay(case),
         "C11" => c11::replay(case),
